@@ -960,8 +960,13 @@ def main(tier, seed):
                               buf.Buffer.new_consecutive.__func__, buf.Buffer.free, buf.Buffer.free_all.__func__,
                               srv.Server._free_all_buffers, srv.Server._next_buffer_number, srv.Server.bind,
                               nad.BundleNetAddr, bus.ControlBus, bus.AudioBus])
-    nops = 3 if tier == 'quick' else 4
+    nops = 3
     jobs = []
+    if tier != 'quick':
+        # 4-operation histories for a few first pairs (the full 4-operation space does not finish in an hour here)
+        for a, a2 in (('synth', 'group'), ('group', 'synth'), ('buffer', 'buffers'), ('bus', 'synth'), ('synth', 'synth'),
+                      ('buffers', 'buffree'), ('group', 'group'), ('freeall', 'buffer')):
+            jobs.append(dict(nops=4, first=[OPS.index(a), OPS.index(a2)], bind=0, deep=False))
     for b in (0, 1, 2):
         n = nops if b == 0 else nops - 1
         for a in range(len(OPS)):
@@ -988,7 +993,9 @@ def main(tier, seed):
     for r in run_jobs('vf.props.c17', 'job_second', [dict()], 'nrt'):
         chk.add('second_server', r)
     chk.require_notes('second_server', ['second'])
-    chk.bounds = {'history_length': f'{nops} outside bind(), {nops - 1} inside', 'operations': OPS,
+    chk.bounds = {'history_length': f'{nops} outside bind(), {nops - 1} inside' + ('' if tier == 'quick' else
+                                     '; 4 outside bind() for 8 first pairs with the fourth operation from the list '
+                                     'below; argument-form variants at every position'), 'operations': OPS,
                   'fourth_operation (thorough)': LAST_OPS, 'add_actions': ACTIONS,
                   'targets': 'server/default group, an existing node, root node id 0',
                   'consecutive_buffers': '1..4 (symbolic)', 'bind': 'outside, inside bind(), inside bind() with an '
